@@ -14,7 +14,7 @@ type State struct {
 	m      *merge // lazy merge of two states
 	loop   *loopBase
 	frozen bool
-	hav    bool // some call without a frame havocked the whole heap on a path to this state
+	hav    bool   // some call without a frame havocked the whole heap on a path to this state
 	gbase  *State // state before the last whole-heap havoc: ghost names resolve through it
 }
 
